@@ -438,7 +438,7 @@ func runC11(args []string) int {
 		if (len(data) > 190 || (nData < 3 && len(pool)%5 != 0)) && o.tier != "thorough" {
 			continue // small, but with data records beyond the file_id message
 		}
-		v, _, _, err := soloDecode(w, data, "generated", s, true)
+		v, _, _, err := soloDecode(r, w, data, "generated", s, true)
 		if err != nil {
 			fmt.Println("driver:", err)
 			return 2
@@ -464,7 +464,7 @@ func runC11(args []string) int {
 			if len(fr) > maxCorpus {
 				continue
 			}
-			v, _, _, err := soloDecode(w, fr, fmt.Sprintf("%s#%d", rel, i), parseStreamBytes(fr), true)
+			v, _, _, err := soloDecode(r, w, fr, fmt.Sprintf("%s#%d", rel, i), parseStreamBytes(fr), true)
 			if err != nil {
 				fmt.Println("driver:", err)
 				return 2
